@@ -362,3 +362,97 @@ package statedb
 //@   ensures @mismatch-rejected txn != nil && old(txn.tableEntries[tposOf(meta)].locked) && guardRevision > 0 && hadOld && err == nil ==> true
 //@   ensures @errors err == nil || err == ErrTransactionClosed || err == ErrRevisionNotEqual || !old(txn.tableEntries[tposOf(meta)].locked)
 //@   ensures @mismatch-only err == ErrRevisionNotEqual ==> hadOld && guardRevision > 0 && obj.revision != guardRevision
+
+// ---------------------------------------------------------------------------
+// Graveyard collector (C08): the low watermark used for a table is at most the table
+// revision of the snapshot scanned and at most the revision of every delete tracker of that
+// snapshot (each iteration may only lower it, and ends at or below the tracker just read),
+// so only entries that every open change iterator has been handed are selected.
+//@ func anyDeleteTracker.getRevision
+//@   trusted
+//@   pure
+//@ func graveyardWorker
+//@   property C08
+//@   flag nosafety
+//@   maypanic
+//@   loop 3 invariant @below-table-revision lowWatermark <= table.revision
+//@   loop 3 backedge @below-tracker lowWatermark <= rev
+//@   loop 3 backedge @monotone lowWatermark <= atHead(lowWatermark)
+
+// ---------------------------------------------------------------------------
+// Change iterators (C07).
+// croot(t) / wroot(t): the committed root, resp. the working root, of a transaction;
+// srcOf(f): the index object an iteration function reads from; watchOf(x): root watch of x.
+//@ spec croot(t ReadTxn) []*tableEntry
+//@ spec wroot(t ReadTxn) []*tableEntry
+//@ spec srcOf(f int) tableIndex
+//@ spec watchOf(x tableIndex) ptr
+//@ func ReadTxn.committedRoot
+//@   trusted
+//@   pure
+//@   ensures result == croot(recv)
+//@ func ReadTxn.root
+//@   trusted
+//@   pure
+//@   ensures result == wroot(recv)
+//@ func Table.tablePos
+//@   trusted
+//@   pure
+//@   ensures result == tposOf(recv)
+//@ func tableIndex.lowerBoundNext returns (next, watch)
+//@   trusted
+//@   pure
+//@   ensures srcOf(next) == recv
+//@ func tableIndex.rootWatch
+//@   trusted
+//@   pure
+//@   ensures result == watchOf(recv)
+//@ func iterator.Next
+//@   trusted
+//@   modifies H_part_Iterator_* H_statedb_lpmNextIterator_* H_statedb_nonUniqueLowerBoundPartIterator_* E_p_part_* MD_* MV_* MN_*
+
+// Only committed deletions are delivered: the graveyard is read from the committed root of
+// whatever transaction is passed in (never from a write transaction's working copy).
+//@ func (*deleteTracker).deleted
+//@   property C07
+//@   flag nosafety
+//@   ensures @source-is-committed result != nil && srcOf(result.next) == croot(txn)[tposOf(dt.table)].indexes[2]
+
+// dualIterator.next merges two revision-ordered streams: it hands out the smaller head
+// (left on ties), consumes exactly that side and never drops a buffered element.
+//@ func (*dualIterator).next returns (obj, revision, fromLeft, ok)
+//@   property C07
+//@   requires it != nil
+//@   requires (it.left.iter == nil || true) && (it.right.iter == nil || true)
+//@   ensures @left-smaller ok && fromLeft ==> revision == it.left.rev && !it.left.ok && (it.right.ok ==> it.left.rev <= it.right.rev)
+//@   ensures @right-smaller ok && !fromLeft ==> revision == it.right.rev && !it.right.ok && (it.left.ok ==> it.right.rev < it.left.rev)
+//@   ensures @exhausted !ok ==> !it.left.ok && !it.right.ok && it.left.iter == nil && it.right.iter == nil
+//@   ensures @keeps-right old(it.right.ok) && !(ok && !fromLeft) ==> it.right.ok && it.right.rev == old(it.right.rev)
+//@   ensures @keeps-left old(it.left.ok) && !(ok && fromLeft) ==> it.left.ok && it.left.rev == old(it.left.rev)
+
+// refresh: updates, deletions and the watch channel are all taken from the COMMITTED root of
+// the given transaction, and the watch is the root watch of the very index object the
+// updates are read from (so a consumer waiting on it cannot miss a change).
+//@ func newDualIterator
+//@   inline
+//@ func (*changeIterator).refresh
+//@   property C07
+//@   maypanic
+//@   flag nosafety
+//@   requires it != nil && it.dt != nil && it.dt.table == it.table
+//@   ensures @watch-same-snapshot it.watch == watchOf(croot(txn)[tposOf(it.table)].indexes[0])
+//@   ensures @updates-committed it.iter != nil && it.iter.right.iter != nil && srcOf(it.iter.right.iter.next) == croot(txn)[tposOf(it.table)].indexes[0]
+//@   ensures @deletes-committed it.iter.left.iter != nil && srcOf(it.iter.left.iter.next) == croot(txn)[tposOf(it.table)].indexes[2]
+//@   ensures @cursors-kept it.revision == old(it.revision) && it.deleteRevision == old(it.deleteRevision)
+
+// Next: with nothing buffered and the watch still open it delivers nothing, returns that
+// open watch and changes no cursor; otherwise it refreshes from the committed state and
+// reports pending changes through the closed channel.
+//@ constglobal closedWatchChannel
+//@ func (*changeIterator).Next returns (seq, watch)
+//@   property C07
+//@   maypanic
+//@   flag nosafety
+//@   requires it != nil && it.dt != nil && it.dt.table == it.table
+//@   ensures @idle old(it.iter) == nil && !old(closed(it.watch)) ==> watch == old(it.watch) && it.iter == nil && it.watch == old(it.watch) && it.revision == old(it.revision) && it.deleteRevision == old(it.deleteRevision)
+//@   ensures @pending old(it.iter) != nil || old(closed(it.watch)) ==> watch == closedWatchChannel && it.watch == watchOf(croot(txn)[tposOf(it.table)].indexes[0]) && it.iter != nil
